@@ -159,8 +159,8 @@ Pic gen_pic() {
           q.a = (0xFFFFFFFFFFFFFF80ULL | i) & m;
           break;
         default: // bytes that look like file structure: newlines, spaces, 'P', NUL
-          q.r = (uint64_t)"\n P6\0#\r\t"[i & 7] * 0x0101010101010101ULL & m;
-          q.g = (uint64_t)"BM\n\n  \xFF\x00"[(i + 1) & 7] * 0x0101010101010101ULL & m;
+          q.r = (uint64_t)"\n P6\0#\r\t"[(i + seed) & 7] * 0x0101010101010101ULL & m; // any of them may come first
+          q.g = (uint64_t)"BM\n\n  \xFF\x00"[(i + 1 + seed) & 7] * 0x0101010101010101ULL & m;
           q.b = (0x0A0A0A0A0A0A0A0AULL) & m;
           q.a = (0x2020202020202020ULL) & m;
           break;
@@ -816,6 +816,34 @@ static void run() {
     count(container == 0 ? "container.own_ppm" : (container == 1 ? "container.own_bmp" : "container.own_png"));
     set_context(string("save/") + fname + "/cw" + std::to_string(src.cw));
     phosg::Image img = build_image(src);
+    // "any image": the object may have reached its variable by copy or move, possibly replacing an
+    // image of another shape
+    switch (choose(6, "img.history")) {
+      case 1: {
+        phosg::Image other(3, 2, !src.alpha, src.cw == 8 ? 16 : 8);
+        other = std::move(img);
+        img = std::move(other);
+        VS_PROBE("image_move_assigned");
+        break;
+      }
+      case 2: {
+        phosg::Image other(2, 5, src.alpha, src.cw == 64 ? 8 : 64);
+        other = img;
+        phosg::Image third;
+        third = other;
+        img = std::move(third);
+        VS_PROBE("image_copy_assigned");
+        break;
+      }
+      case 3: {
+        phosg::Image copy(img);
+        phosg::Image moved(std::move(copy));
+        img = std::move(moved);
+        break;
+      }
+      default:
+        break;
+    }
     enc.expect = src;
     if (!src.alpha)
       for (auto& q : enc.expect.px) q.a = mask_for(src.cw);
@@ -1103,7 +1131,7 @@ int main(int argc, char** argv) {
       {"glibc stdio, zlib", "real"},
       {"disk / file", "stub: simulated inode behind fopencookie (vsim/vfs.cc): durable prefix, scripted read sizes and EIO, capacity (full disk), short writes"},
       {"PNG/BMP/PPM reference decoders and foreign-file encoders", "harness code in engines/sim_image.cc sharing no code with phosg"}};
-  e.expected_probes = {"independent_decode_checked", "width_not_multiple_of_4", "grayscale_input", "bmp_bitfields_input", "bmp_top_down_input", "torn_every_prefix_of_a_file", "save_hit_full_disk", "saved_by_filename", "loaded_by_filename", "largest_picture_64x64", "faulty_file_loaded_by_filename"};
+  e.expected_probes = {"independent_decode_checked", "width_not_multiple_of_4", "grayscale_input", "bmp_bitfields_input", "bmp_top_down_input", "torn_every_prefix_of_a_file", "save_hit_full_disk", "saved_by_filename", "loaded_by_filename", "largest_picture_64x64", "faulty_file_loaded_by_filename", "image_move_assigned", "image_copy_assigned"};
   e.expected_faults = {"truncation", "EIO@read", "short_read", "short_write", "ENOSPC@capacity"};
   return driver_main(argc, argv, e);
 }
